@@ -132,7 +132,7 @@ def ops_reduce(rng):
     a, b = pair(rng)
     o.append("scalar %s ; %s" % (vec(a), vec(b)))
     a, b = pair(rng)
-    w = values(rng, len(b) if rng.random() < 0.9 else length(rng), "pos")
+    w = values(rng, rng.choice([len(a), len(b)]) if rng.random() < 0.9 else length(rng), "pos")
     o.append("scalarw %s ; %s ; %s" % (vec(a), vec(b), vec(w)))
     o.append("norm " + vec(one(rng)))
     a, w = pair(rng, None, "pos")
@@ -271,7 +271,243 @@ def ops_fdr(rng):
     return ["fdr " + vec(values(rng, length(rng), "pvals")), "fdr " + vec(values(rng, rng.randint(17, 64), "pvals"))]
 
 
-GROUPS = [ops_arith, ops_reduce, ops_extrema, ops_moments, ops_sets, ops_log, ops_fdr]
+
+# ---------------------------------------------------------------------------------------------
+# round 2: every overload, every combination of the boolean options, lists of 0..5 vectors
+
+def weights(rng, n):
+    k = rng.random()
+    if k < 0.35:
+        return values(rng, n, "pos")
+    if k < 0.6:
+        return values(rng, n, "prob")                      # already normalised: 1 - sum w^2 in (0,1)
+    if k < 0.85:
+        return [rng.uniform(0.01, 0.3) for _ in range(n)]   # small: the unnormalised unbiased divisor stays positive for short vectors
+    return [float(rng.randint(1, 4)) for _ in range(n)]     # integer weights (exact arithmetic)
+
+
+def ops_options(rng):
+    """the weighted and unweighted moments with *every* combination of their boolean options on the
+    same data (so that two options being confused, swapped or ignored shows)"""
+    o = []
+    n = rng.choice([1, 2, 3, 3, 4, 5, 8, 13, 30]) if rng.random() < 0.93 else 0
+    kind = rng.choice(["ints", "reals", "tiny", "mag"])
+    a = values(rng, n, kind)
+    b = values(rng, n, kind)
+    w = weights(rng, n)
+    r = rng.random()          # which of the three lengths is the odd one (each raises at a different test)
+    if r < 0.05:
+        w = weights(rng, length(rng))
+    elif r < 0.10:
+        b = values(rng, length(rng), kind)
+    elif r < 0.15:
+        a = values(rng, length(rng), kind)
+    for u in "01":
+        o.append("cov %s %s ; %s" % (u, vec(a), vec(b)))
+        o.append("var %s %s" % (u, vec(a)))
+        o.append("sd %s %s" % (u, vec(a)))
+    for nw in "01":
+        o.append("meanw %s %s ; %s" % (nw, vec(a), vec(w)))
+        o.append("centerw %s %s ; %s" % (nw, vec(a), vec(w)))
+        o.append("corw %s %s ; %s ; %s" % (nw, vec(a), vec(b), vec(w)))
+    for u in "01":
+        for nw in "01":
+            o.append("covw4 %s %s %s ; %s ; %s" % (u, nw, vec(a), vec(b), vec(w)))
+            o.append("varw4 %s %s %s ; %s" % (u, nw, vec(a), vec(w)))
+            o.append("sdw %s %s %s ; %s" % (u, nw, vec(a), vec(w)))
+    o.append("cosw %s ; %s ; %s" % (vec(a), vec(b), vec(w)))
+    return o
+
+
+def veclist(rng, k):
+    """k vectors over a small alphabet, built so that unions and intersections are non-trivial:
+    a common core, elements missing from exactly one vector (first / middle / last), repeats"""
+    alphabet = [float(x) for x in range(-3, 6)]
+    mode = rng.random()
+    if k == 0:
+        return []
+    if mode < 0.25:
+        return [values(rng, rng.randint(0, 7), "tiny") for _ in range(k)]
+    core = rng.sample(alphabet, rng.randint(0, 3))
+    others = [x for x in alphabet if x not in core]
+    vs = []
+    for _ in range(k):
+        v = core + rng.sample(others, rng.randint(0, min(4, len(others))))
+        if rng.random() < 0.4 and v:
+            v += [rng.choice(v) for _ in range(rng.randint(1, 3))]     # repeats
+        rng.shuffle(v)
+        vs.append(v)
+    if others and k >= 2 and rng.random() < 0.7:
+        # an element present everywhere except in one chosen vector
+        x = rng.choice(others)
+        miss = rng.randrange(k)
+        for i, v in enumerate(vs):
+            if i == miss:
+                vs[i] = [y for y in v if y != x]
+            elif x not in v:
+                v.insert(rng.randint(0, len(v)), x)
+    if rng.random() < 0.1:
+        vs[rng.randrange(k)] = []
+    return vs
+
+
+def lst(vs):
+    return "".join(" ; " + vec(v) for v in vs).rstrip()
+
+
+def ops_lists(rng):
+    o = []
+    for k in range(0, 6):
+        vs = veclist(rng, k)
+        o.append(("unionlist" + lst(vs)).strip())
+        vs = veclist(rng, k)
+        o.append(("interlist" + lst(vs)).strip())
+        if rng.random() < 0.5:
+            o.append(("appendlist" + lst(veclist(rng, k))).strip())
+    # the element is missing from one middle vector only
+    k = rng.randint(3, 5)
+    x = 9.0
+    vs = [values(rng, rng.randint(0, 4), "tiny") + [x] for _ in range(k)]
+    for v in vs:
+        rng.shuffle(v)
+    j = rng.randint(1, k - 2)
+    vs[j] = [y for y in vs[j] if y != x]
+    o.append("interlist" + lst(vs))
+    return o
+
+
+def ops_sets2(rng):
+    o = []
+    ks = ["tiny", "tiny", "ints"]
+
+    def two():
+        k = rng.choice(ks)
+        a = values(rng, length(rng) if rng.random() < 0.5 else rng.randint(0, 6), k)
+        b = values(rng, length(rng) if rng.random() < 0.5 else rng.randint(0, 6), k)
+        r = rng.random()
+        if r < 0.1:
+            b = []
+        elif r < 0.25:
+            b = list(a)
+            rng.shuffle(b)
+        elif r < 0.4 and a:
+            b = [rng.choice(a) for _ in range(rng.randint(0, len(a)))]
+        elif r < 0.45:
+            a = []
+        return a, b
+    for name in ("extend", "append2", "prepend", "havesame2", "containsall2"):
+        a, b = two()
+        o.append("%s %s ; %s" % (name, vec(a), vec(b)))
+    a, b = two()
+    c = values(rng, rng.randint(0, 4), "tiny")
+    o.append("diff3 %s ; %s ; %s" % (vec(a), vec(b), vec(c)))
+    for n in (0, 1, 2, rng.randint(3, 5)):
+        o.append("rep %s ; %s" % (hx(n), vec(values(rng, rng.choice([0, 1, 2, 3, 7]), "tiny"))))
+    v = values(rng, rng.randint(1, 12), rng.choice(ks))
+    pos = [float(rng.randrange(len(v))) for _ in range(rng.randint(0, 8))]
+    o.append("extract %s ; %s" % (vec(pos), vec(v)))
+    o.append("countvalues " + vec(one(rng, ks + ["reals"])))
+    v = one(rng, ks)
+    o.append("containsu %s ; %s" % (hx(rng.choice(v + [99.0])), vec(v)))
+    # T = double, U = int: halves in the first vector are truncated before the comparison
+    a = [rng.randint(-6, 6) / 2.0 for _ in range(rng.randint(0, 10))]
+    b = [float(rng.randint(-3, 3)) for _ in range(rng.randint(0, 6))]
+    o.append("intertu %s ; %s" % (vec(a), vec(b)))
+    return o
+
+
+def ops_misc(rng):
+    o = []
+    a = values(rng, rng.randint(0, 8), rng.choice(["tiny", "ints", "reals"]))
+    b = values(rng, rng.randint(0, 8), rng.choice(["tiny", "ints", "reals"]))
+    o.append("kron %s ; %s" % (vec(a), vec(b)))
+    c = rng.choice([0.5, 2.0, -3.0, 0.0, rng.uniform(-10, 10)])
+    o.append("%s %s ; %s" % (rng.choice(["fillc", "fill"]), vec(one(rng)), hx(c)))
+    for name in ("addceq", "subceq", "mulceq", "divceq"):
+        o.append("%s %s ; %s" % (name, vec(values(rng, rng.randint(0, 10), rng.choice(KINDS))), hx(rng.choice([0.5, 2.0, -3.0, rng.uniform(-10, 10)]))))
+    for name in ("vlog", "vexp", "vcos", "vsin", "vlog10", "vsqr", "vabs"):
+        v = values(rng, rng.randint(0, 10), rng.choice(["pos", "reals", "tiny", "mag"]))
+        if rng.random() < 0.1 and v:
+            v[0] = rng.choice([0.0, -0.0, INF, -INF])
+        o.append(name + " " + vec(v))
+    o.append("vlogb %s ; %s" % (hx(rng.choice([2.0, 10.0, 2.7182818])), vec(values(rng, rng.randint(0, 10), "pos"))))
+    o.append("vpow %s ; %s" % (hx(rng.choice([2.0, 0.5, -1.0, 3.0, 0.0, rng.uniform(-2, 2)])), vec(values(rng, rng.randint(0, 10), rng.choice(["pos", "reals"])))))
+    o.append("vfact " + vec([float(rng.choice([0, 1, 2, 3, 5, 10, 18, 20, 25])) for _ in range(rng.randint(0, 6))]))
+    specials = [0.0, -0.0, 1.0, -1.0, 2.5, -2.5, 1e300, -1e300, 5e-324, INF, -INF]
+    x = rng.choice(specials + [rng.uniform(-100, 100)] * 6)
+    y = rng.choice(specials + [rng.uniform(-100, 100), x] * 4)
+    o += ["ntabs " + hx(x), "ntsign " + hx(x), "ntsqr " + hx(x)]
+    o += ["ntmax %s %s" % (hx(x), hx(y)), "ntmin %s %s" % (hx(x), hx(y)), "ntsign2 %s %s" % (hx(x), hx(y))]
+    o.append("ntswap " + vec([rng.uniform(-9, 9) for _ in range(rng.choice([2, 3, 4]))]))
+    n = rng.choice([0, 1, 2, 3, 5, 10, 18, 19, 25, 100, 170, 171])
+    o += ["ntfact " + hx(n), "ntlogfact " + hx(n)]
+    v = values(rng, rng.randint(0, 20) if rng.random() < 0.9 else 0, rng.choice(["ints", "reals", "tiny"]))
+    o.append("breaks %s ; %s" % (hx(rng.choice([0, 1, 2, 3, 4, 7, 10])), vec(v)))
+    n = rng.randint(2, 40)
+    v = values(rng, n, rng.choice(["ints", "reals", "mag"]))
+    if len(set(v)) > 1:
+        o.append("nclass " + vec(v))
+    if rng.random() < 0.1:
+        o.append("nclass")
+    rows = [values(rng, rng.randint(0, 4), "tiny") for _ in range(rng.randint(0, 4))]
+    o.append(("resize2 %s %s" % (hx(rng.randint(0, 5)), hx(rng.randint(0, 5))) + lst(rows)).strip())
+    o.append("resize3 " + vec([rng.randint(0, 3) for _ in range(6)]))
+    o.append("resize4 " + vec([rng.randint(0, 3) for _ in range(8)]))
+    return o
+
+
+def ops_cont(rng):
+    """continuous entropy / mutual information: samples without ties, at least 3 points"""
+    o = []
+    base = rng.choice([2.7182818, 2.0, 10.0])
+    n = rng.randint(3, 16)
+    v = [rng.gauss(0, rng.choice([0.5, 1, 5])) + rng.choice([0, 10]) for _ in range(n)]
+    o.append("shannoncont %s ; %s" % (hx(base), vec(v)))
+    a = [rng.gauss(0, 1) for _ in range(n)]
+    k = rng.choice([0.0, 0.5, -0.8])
+    b = [k * x + rng.gauss(0, 1) for x in a]
+    if rng.random() < 0.1:
+        b = b[:-1]
+    o.append("micont %s ; %s ; %s" % (hx(base), vec(a), vec(b)))
+    return o
+
+
+def ops_defaults(rng):
+    """calls that leave trailing arguments to their defaults (a changed default value shows only here)"""
+    o = []
+    n = rng.choice([2, 3, 4, 5, 8, 13]) if rng.random() < 0.95 else rng.choice([0, 1])
+    kind = rng.choice(["ints", "reals", "tiny"])
+    a = values(rng, n, kind)
+    b = values(rng, n, kind)
+    w = weights(rng, n if rng.random() < 0.9 else length(rng))
+    o.append("dcov %s ; %s" % (vec(a), vec(b)))
+    o.append("dvar " + vec(a))
+    o.append("dsd " + vec(a))
+    o.append("dmeanw %s ; %s" % (vec(a), vec(w)))
+    o.append("dcenterw %s ; %s" % (vec(a), vec(w)))
+    o.append("dcorw %s ; %s ; %s" % (vec(a), vec(b), vec(w)))
+    o.append("dcovw %s ; %s ; %s" % (vec(a), vec(b), vec(w)))
+    o.append("dvarw %s ; %s" % (vec(a), vec(w)))
+    o.append("dsdw %s ; %s" % (vec(a), vec(w)))
+    for u in "01":
+        o.append("dcovw1 %s %s ; %s ; %s" % (u, vec(a), vec(b), vec(w)))
+        o.append("dvarw1 %s %s ; %s" % (u, vec(a), vec(w)))
+        o.append("dsdw1 %s %s ; %s" % (u, vec(a), vec(w)))
+    o.append("dshannon " + vec(one(rng, ["prob", "unit", "pos"])))
+    o.append("dshannondisc " + vec(one(rng, ["tiny", "tiny", "ints"])))
+    k = rng.choice(["tiny", "ints"])
+    x, y = pair(rng, [k])
+    o.append("dmidisc %s ; %s" % (vec(x), vec(y)))
+    if rng.random() < 0.3:
+        m = rng.randint(3, 12)
+        v = [rng.gauss(0, 1) for _ in range(m)]
+        o.append("dshannoncont " + vec(v))
+        o.append("dmicont %s ; %s" % (vec(v), vec([0.5 * x + rng.gauss(0, 1) for x in v])))
+    return o
+
+
+GROUPS = [ops_arith, ops_reduce, ops_extrema, ops_moments, ops_sets, ops_log, ops_fdr,
+          ops_options, ops_lists, ops_sets2, ops_misc, ops_cont, ops_defaults]
 
 
 def generate(seed, tier):
@@ -290,6 +526,8 @@ RELATIONAL = ("order", "fdr")
 def compare(op_line, impl, model):
     """bit-exact equality, except for the two routines whose answer depends on the order in which
     std::sort leaves equal keys: there the predicate (order_sorted_perm / fdr_spec) decides."""
+    if impl.strip() == "bad-op" or model.strip() == "bad-op":
+        return False                       # an operation one side does not know is never "agreement"
     if " ".join(impl.split()) == " ".join(model.split()):
         return True
     name = op_line.split()[0]
